@@ -887,6 +887,12 @@ namespace fixedmath
       }
     //normalize the range to phi/2
     x = detail::tan_range(x);
+    //tan(x) = -tan(phi-x), series below are valid only for 0 .. phi/2
+    if( x > fixpidiv2.v )
+      {
+      x = phi.v - x;
+      sign_ = !sign_;
+      }
     
     if( fixed_likely( x != fixpidiv2.v ) )
       {
